@@ -31,6 +31,7 @@ CATALOG: dict[str, dict] = {
     "SvTextLen": dict(kind="op", i="text", o="float", params={}),
     "SvCollSum": dict(kind="op", i="coll", o="float", params={"weight": 1.0}),
     "SvProbe": dict(kind="probe", i="float", o="float", params={}),
+    "SvProbeNone": dict(kind="probe", i="float", o="float", params={}),
     "SvProbeParam": dict(kind="probe", i="float", o="float", params={"offset": None}),
     "SvProbeDefault": dict(kind="probe", i="float", o="float", params={"offset": 0.5}),
     "SvFileSink": dict(kind="sink", i="float", o="float", params={"path": None}),
@@ -52,6 +53,7 @@ class _G:
                  allow_stream=True):
         self.allow_nonfinite = allow_nonfinite
         self.allow_stream = allow_stream
+        self.allow_falsy = True
         self.rng = rng
         self.nodes: list[dict] = []
         self.truth: list[dict] = []
@@ -70,6 +72,9 @@ class _G:
         self.init_data: float | None = None
 
     def val(self) -> float:
+        if self.allow_falsy and self.rng.random() < 0.05 and 0.0 not in self.used_vals:
+            self.used_vals.add(0.0)
+            return 0.0          # a falsy but perfectly legal value
         while True:
             v = self.rng.randint(1, 800) / 8.0
             if v not in self.used_vals:
@@ -189,7 +194,7 @@ class _G:
             n = length if (mode == "by_position" and not broadcast) else rng.randint(1, 3)
             r = rng.random()
             if r < 0.4:
-                lo = self.val()
+                lo = self.val() or 0.625      # range bounds stay positive (log scale requires it)
                 vars_[v] = {"lo": lo, "hi": lo + rng.randint(1, 4), "steps": n}
                 if rng.random() < 0.3:
                     vars_[v]["endpoint"] = False
@@ -306,6 +311,8 @@ class _G:
             name = rng.choice(PROBES)
             spec = CATALOG[name]
             ck = rng.choice(["addend", "factor", "offset", "bias", self.fresh_key("pk"), self.fresh_key("pk")])
+            if rng.random() < 0.08:
+                name, spec, ck = "SvProbeNone", CATALOG["SvProbeNone"], self.fresh_key("nk")     # context value None
             node = {"processor": name, "context_key": ck}
             self.place_params(name, spec["params"], node)
             self.emit(node, name=name, kind="probe", out=None, creates=[ck], params_spec=spec["params"])
